@@ -25,9 +25,10 @@ PROPS = {}
 NOT_CLAIMED = {}
 
 PROPS['C15'] = dict(
-    level='proof',
+    level='other',
     claim='Task.wait and Pilot.wait: loop-exit obligations (awaited state or final state reached => the polling loop is left within one iteration), truthful return value, for every state argument shape and every forward-moving trajectory of the entity; all obligations discharged, no bound',
-    note='TaskManager.wait_tasks / PilotManager.wait_pilots not yet under contract',
+    note='TaskManager.wait_tasks / PilotManager.wait_pilots are not under contract: they are exercised by a bounded native run (threads, timed returns), labelled bounded',
+    bounded=[dict(name='wait-calls', cmd=['harness/run_bounded.py', 'wait-calls'], timeout=900)],
     assumptions=['A2', 'A4', 'A8', 'A11'],
     explanation='wait calls: argument normalisation, loop-exit obligations '
                 '(awaited state reached / entity final => the polling loop is '
@@ -51,7 +52,7 @@ PROPS['C06'] = dict(
     clauses={'only forward / each state at most once / gaps filled': 'P',
              'final states never change': 'P',
              'contradictory notification does not stop the batch': 'P',
-             'callback dispatch (_task_cb try/except around user callbacks)': 'A'})
+             'callback dispatch (_task_cb: every registered callback once, with the announced state, exceptions contained)': 'P'})
 
 PROPS['C13'] = dict(
     level='proof',
